@@ -9,7 +9,7 @@ from pathlib import Path
 from .. import gen
 from ..harness import CheckBase
 
-COMMANDS = ('list-snapshots', 'list-files', 'restore', 'delete', 'clean', 'snapshot', 'download-objects')
+COMMANDS = ('list-snapshots', 'list-files', 'restore', 'delete', 'clean', 'snapshot', 'download-objects', 'upload-objects')
 STATES = ('empty', 'warm', 'warm-by-family-member', 'warm-by-independent-key', 'shared-with-other-repository',
           'stale-after-add', 'stale-after-delete', 'entry-missing', 'entry-empty', 'entry-prefix-1', 'entry-prefix-half',
           'entry-prefix-len-1', 'all-entries-truncated', 'after-failed-run-with-garbled-download', 'cold-many-concurrent',
@@ -103,6 +103,25 @@ class Check(CheckBase):
                         await repo.delete_snapshots(own[:1], confirm=False)
                     elif cmd == 'clean':
                         await repo.clean()
+                    elif cmd == 'upload-objects':
+                        # migrating / repairing: a dump of every object is uploaded with skip_existing into a repository that
+                        # lacks some of them (two snapshot objects, one chunk) - whatever the cache holds, those get uploaded
+                        dump = tempfile.mkdtemp(prefix='d-', dir=scratch)
+                        for n, blob in objects.items():
+                            Path(dump, n).parent.mkdir(parents=True, exist_ok=True)
+                            Path(dump, n).write_bytes(blob)
+                        snaps_ = sorted(n for n in objects if n.startswith('snapshots/'))
+                        data_ = sorted(n for n in objects if n.startswith('data/'))
+                        for n in snaps_[:1] + snaps_[-1:] + data_[:1]:
+                            store.objects.pop(n, None)
+                        cwd0 = os.getcwd()
+                        os.chdir(dump)
+                        try:
+                            await repo.upload_objects([Path('snapshots'), Path('data')], skip_existing=True)
+                        finally:
+                            os.chdir(cwd0)
+                            shutil.rmtree(dump, ignore_errors=True)
+                        obs['tree'] = {n: bytes(b) for n, b in store.objects.items()}
                     elif cmd == 'download-objects':
                         target = tempfile.mkdtemp(prefix='o-', dir=scratch)
                         await repo.download_objects(path=Path(target))
